@@ -8,6 +8,7 @@
 # @author Davide Brunato <brunato@sissa.it>
 #
 import json
+from copy import copy
 from collections.abc import Iterator, Iterable
 from decimal import Decimal
 from types import ModuleType
@@ -295,6 +296,10 @@ def serialize_to_xml(elements: Iterable[Any],
         if isinstance(item, ElementNode):
             assert isinstance(item, EtreeElementNode)
             elem = item.value
+            if elem.tail is not None:
+                # the tail is not part of the element: serialize a copy without it
+                elem = copy(elem)
+                elem.tail = None
         elif isinstance(item, (AttributeNode, NamespaceNode)):
             raise xpath_error('SENR0001', token=token)
         elif isinstance(item, TextNode):
@@ -315,12 +320,12 @@ def serialize_to_xml(elements: Iterable[Any],
             )
         except TypeError:
             ck = etree_module.tostring(elem, encoding='utf-8', method=method)
-            chunks.append(ck.decode('utf-8').rstrip(elem.tail))
+            chunks.append(ck.decode('utf-8'))
         else:
             if cks and cks[0].startswith(b'<?xml'):
                 head, sep, rest = cks[0].partition(b'?>')
                 cks[0] = head.replace(b'\'', b'"') + sep + rest
-            chunks.append(b''.join(cks).decode('utf-8').rstrip(elem.tail))
+            chunks.append(b''.join(cks).decode('utf-8'))
 
     if not character_map:
         return (item_separator or '').join(chunks)
